@@ -759,6 +759,11 @@ func (b *Block) SetPrevBlockVerificationTickets(bvt []*VerificationTicket) {
 
 // Clone returns a clone of the block instance
 func (b *Block) Clone() *Block {
+	// the tickets, the notarization flag and the link to the previous block
+	// (PrevBlock, PrevHash, Round, PrevBlockVerificationTickets) are written
+	// under ticketsMutex; the client state hash under stateMutex
+	b.stateMutex.RLock()
+	b.ticketsMutex.RLock()
 	clone := &Block{
 		UnverifiedBlockBody: *b.UnverifiedBlockBody.Clone(),
 		VerificationTickets: copyVerificationTickets(b.VerificationTickets),
@@ -768,12 +773,14 @@ func (b *Block) Clone() *Block {
 		RoundRank:           b.RoundRank,
 		PrevBlock:           b.PrevBlock,
 		RunningTxnCount:     b.RunningTxnCount,
-		stateStatus:         b.stateStatus,
-		blockState:          b.blockState,
 		isNotarized:         b.isNotarized,
-		verificationStatus:  b.verificationStatus,
 		StateChangesCount:   b.StateChangesCount,
 	}
+	b.ticketsMutex.RUnlock()
+	b.stateMutex.RUnlock()
+	clone.stateStatus = b.GetStateStatus()
+	clone.blockState = b.GetBlockState()
+	clone.verificationStatus = b.GetVerificationStatus()
 	if b.MagicBlock != nil {
 		clone.MagicBlock = b.MagicBlock.Clone()
 	}
